@@ -373,4 +373,103 @@ theorem annot_general_aux (labels : List Int) (ctab : List Row) (has5 : Bool) (n
     (by rw [final_ctab ctab ok.rows, withPacked_avals]; exact c4)
   rw [final_ctab ctab ok.rows] at this
   exact this
+
+/-! ### fill_ctab ignores the 5th column; the recolour history -/
+
+theorem fill_eq_of_zeroA (c1 c2 : List Row) (h : c1.map zeroA = c2.map zeroA) :
+    c1.map (fun c => { c with a := packRgb c.r c.g c.b }) = c2.map (fun c => { c with a := packRgb c.r c.g c.b }) := by
+  have key : ∀ c : Row, ({ c with a := packRgb c.r c.g c.b } : Row)
+      = (fun z : Row => { z with a := packRgb z.r z.g z.b }) (zeroA c) := by intro c; rfl
+  have e : ∀ l : List Row, l.map (fun c => { c with a := packRgb c.r c.g c.b })
+      = (l.map zeroA).map (fun z : Row => { z with a := packRgb z.r z.g z.b }) := by
+    intro l; rw [List.map_map]; apply List.map_congr_left; intro c _; exact key c
+  rw [e c1, e c2, h]
+
+/-- with `fill_ctab=True` the file depends on the first four columns only -/
+theorem writeAnnot_fill_congr (labels : List Int) (c1 c2 : List Row) (h51 h52 : Bool) (names : List Bytes)
+    (h : c1.map zeroA = c2.map zeroA) :
+    writeAnnot labels c1 h51 names true = writeAnnot labels c2 h52 names true := by
+  simp only [writeAnnot, writeAnnotWith, fillCtab, if_true, fill_eq_of_zeroA c1 c2 h]
+
+theorem recolour_length (ctab : List Row) (rgb : List (Int × Int × Int)) : (recolour ctab rgb).length = ctab.length := by
+  induction ctab generalizing rgb with
+  | nil => cases rgb <;> rfl
+  | cons c cs ih => cases rgb with
+    | nil => rfl
+    | cons p ps => simp [recolour, ih]
+
+theorem packs_recolour (ctab : List Row) (rgb : List (Int × Int × Int)) (h : rgb.length = ctab.length) :
+    packs (recolour ctab rgb) = rgb.map fun p => packRgb p.1 p.2.1 p.2.2 := by
+  induction ctab generalizing rgb with
+  | nil => cases rgb with
+    | nil => rfl
+    | cons p ps => simp at h
+  | cons c cs ih => cases rgb with
+    | nil => simp at h
+    | cons p ps =>
+      simp only [List.length_cons, Nat.add_right_cancel_iff] at h
+      simp only [recolour, packs, List.map_cons, List.cons.injEq, true_and]
+      exact ih ps h
+
+theorem recolour_rowOk (ctab : List Row) (rgb : List (Int × Int × Int)) (hc : ∀ c ∈ ctab, RowOk c)
+    (hr : ∀ p ∈ rgb, 0 ≤ p.1 ∧ p.1 < 256 ∧ 0 ≤ p.2.1 ∧ p.2.1 < 256 ∧ 0 ≤ p.2.2 ∧ p.2.2 < 256) :
+    ∀ c ∈ recolour ctab rgb, RowOk c := by
+  induction ctab generalizing rgb with
+  | nil => cases rgb <;> simp [recolour]
+  | cons c cs ih => cases rgb with
+    | nil => simpa [recolour] using hc
+    | cons p ps =>
+      intro x hx
+      simp only [recolour, List.mem_cons] at hx
+      rcases hx with rfl | hx
+      · have h1 := hc c (List.mem_cons_self ..)
+        have h2 := hr p (List.mem_cons_self ..)
+        unfold RowOk at h1 ⊢
+        simp only
+        omega
+      · exact ih ps (fun c hc' => hc c (List.mem_cons_of_mem _ hc')) (fun p hp => hr p (List.mem_cons_of_mem _ hp)) x hx
+
+theorem limitLabel_dom (av av2 : List Int) (hlen : av2.length = av.length) (l : Int) (h : LabDom av l) :
+    LabDom av2 (limitLabel av l) := by
+  unfold limitLabel
+  rcases h with ⟨rfl, hne⟩ | ⟨h0, hn⟩
+  · left
+    refine ⟨by simp, ?_⟩
+    intro e; rw [e] at hlen; exact hne (List.eq_nil_of_length_eq_zero hlen.symm)
+  · split
+    · left
+      refine ⟨rfl, ?_⟩
+      intro e; rw [e] at hlen; simp at hlen; omega
+    · right; omega
+
+/-- **Two-step history**: write, read, recolour `ctab[:, :3]` (5th column now STALE), write again with
+    `fill_ctab=True`, read -/
+theorem annot_recolour_chain_aux (labels : List Int) (ctab : List Row) (has5 : Bool) (names : List Bytes) (fill : Bool)
+    (ok : AnnotDom labels ctab has5 names fill) (rgb : List (Int × Int × Int))
+    (hlen : rgb.length = ctab.length)
+    (hr : ∀ p ∈ rgb, 0 ≤ p.1 ∧ p.1 < 256 ∧ 0 ≤ p.2.1 ∧ p.2.1 < 256 ∧ 0 ≤ p.2.2 ∧ p.2.2 < 256)
+    (hd : (rgb.map fun p => packRgb p.1 p.2.1 p.2.2).Nodup) :
+    ∃ f2, annotChain labels ctab has5 names fill rgb true = .ok
+      (⟨labels.map (limitLabel (packs ctab)), withPacked ctab, names⟩, f2,
+       ⟨(labels.map (limitLabel (packs ctab))).map (limitLabel (packs (recolour (withPacked ctab) rgb))),
+         withPacked (recolour (withPacked ctab) rgb), names⟩) := by
+  obtain ⟨f1, w1, r1⟩ := annot_general_aux labels ctab has5 names fill ok
+  have hwl : (withPacked ctab).length = ctab.length := by simp [withPacked]
+  have hp2 := packs_recolour (withPacked ctab) rgb (by rw [hwl]; exact hlen)
+  have ok2 : AnnotDom (labels.map (limitLabel (packs ctab))) (recolour (withPacked ctab) rgb) true names true := by
+    refine ⟨?_, ?_, ?_, ?_, ?_, ok.names_ok, ?_, ?_⟩
+    · rw [recolour_length, hwl]; exact ok.names_len
+    · exact recolour_rowOk _ _ (withPacked_rowOk ctab ok.rows) hr
+    · intro h; cases h
+    · rw [hp2]; exact hd
+    · intro l hl
+      obtain ⟨l0, hl0, rfl⟩ := List.mem_map.1 hl
+      apply limitLabel_dom _ _ _ _ (ok.labs_ok l0 hl0)
+      rw [hp2]; simp [packs, hlen]
+    · simpa using ok.nlabels
+    · rw [recolour_length, hwl]; exact ok.nrows
+  obtain ⟨f2, w2, r2⟩ := annot_general_aux _ _ true names true ok2
+  refine ⟨f2, ?_⟩
+  simp only [annotChain, w1, r1, w2, r2]
+
 end Nb.C19
